@@ -4,7 +4,7 @@
    comparative_discretise with abs_tolerance None (Gen_C08_discretise), the hit / miss / false-alarm / correct-negative maps
    and the final ratios of binary_impl.probability_of_detection / probability_of_false_detection (Gen_C09_binary),
    NaN-skipping sums, and numpy's trapezoid as a fold.  Only statements; proofs are `exact <lemma>` into coq/proofs/C14*.v. *)
-From V Require Import lib.Tree lib.C08_aux gen.Gen_C08_discretise gen.Gen_C09_binary model.C08 model.C09 model.C14 proofs.C14.
+From V Require Import lib.Tree lib.C08_aux gen.Gen_C08_discretise gen.Gen_C09_binary model.C08 model.C09 model.C14 proofs.C14 proofs.C14_mw.
 
 (* the discretised forecast: NaN stays NaN, otherwise 1 iff forecast >= t (equality is an event) *)
 Theorem C14_discretised_forecast : forall (t : Q) (f : xv),
@@ -67,3 +67,42 @@ Theorem C14_auc_in_unit_interval : forall (cells : list triple) (ts : list Q),
   exists a, auc_at cells (map XFin ts) =x= XFin a /\ 0 <= a <= 1.
 Proof. exact auc_unit. Qed.
 Print Assumptions C14_auc_in_unit_interval.
+
+(* auc_is_mann_whitney, sample form: for non-empty lists E, N of event / non-event forecasts and strictly increasing thresholds
+   containing every forecast value, the last threshold above all of them, the trapezoid area under the points
+   (#{n >= t}/|N|, #{e >= t}/|E|) is  sum over pairs of [e > n] + [e = n]/2, divided by |E||N| *)
+Theorem C14_roc_area_is_mann_whitney : forall E N ts : list Q,
+  E <> [] -> N <> [] -> strict ts ->
+  (forall v, In v E \/ In v N -> InQ v ts /\ v < last ts 0) ->
+  rocQ E N ts == mw_sum E N / (qlen E * qlen N).
+Proof. exact roc_area_is_mann_whitney. Qed.
+Print Assumptions C14_roc_area_is_mann_whitney.
+
+(* auc_is_mann_whitney, on the code-structured AUC: unweighted triples (weight 1) with finite forecasts; fvals k = forecasts of the
+   valid cells with observation k *)
+Theorem C14_auc_is_mann_whitney : forall (cells : list triple) (ts : list Q),
+  Forall wf cells -> unweighted cells -> finite_fc cells -> strict ts ->
+  (forall v, In v (fvals 1 cells) \/ In v (fvals 0 cells) -> InQ v ts /\ v < last ts 0) ->
+  fvals 1 cells <> [] -> fvals 0 cells <> [] ->
+  auc_at cells (map XFin ts) =x= mann_whitney (fvals 1 cells) (fvals 0 cells).
+Proof. exact auc_is_mann_whitney. Qed.
+Print Assumptions C14_auc_is_mann_whitney.
+
+(* ---- non-vacuity ---- *)
+Definition ex_cells : list triple :=
+  [(XFin (1 # 2), XFin 1, XFin 1); (XFin (1 # 4), XFin 0, XFin 1); (XFin (1 # 2), XFin 0, XFin 1); (XNaN, XFin 1, XFin 1)].
+Definition ex_ts : list Q := [0; 1 # 4; 1 # 2; 1].
+(* a forecast equal to the threshold is an event: POD(1/2) = 1, POFD(1/2) = 1/2; the tie counts one half in the AUC *)
+Example C14_ex_values :
+  pod_at ex_cells (XFin (1 # 2)) =x= XFin 1 /\ pofd_at ex_cells (XFin (1 # 2)) =x= XFin (1 # 2) /\
+  auc_at ex_cells (map XFin ex_ts) =x= XFin (3 # 4) /\ mann_whitney (fvals 1 ex_cells) (fvals 0 ex_cells) =x= XFin (3 # 4).
+Proof. vm_compute. repeat split; reflexivity. Qed.
+Example C14_ex_hypotheses :
+  Forall wf ex_cells /\ unweighted ex_cells /\ wnonneg ex_cells /\ strict ex_ts /\ nondec ex_ts /\
+  ~ d1 ex_cells == 0 /\ ~ d0 ex_cells == 0 /\ fvals 1 ex_cells <> [] /\ fvals 0 ex_cells <> [].
+Proof.
+  repeat split; try (vm_compute; congruence); try discriminate.
+  - repeat constructor.
+  - intros c H. repeat (destruct H as [<- | H]; [reflexivity |]). contradiction.
+  - intros c H _. repeat (destruct H as [<- | H]; [vm_compute; congruence |]). contradiction.
+Qed.
